@@ -27,7 +27,7 @@ EventsOf(t) ==
 \* a |-> [P, S]: parameters and final machine state of the replay from 1024 + a
 Runs(t) ==
   LET evs == EventsOf(t) IN
-  [a \in StartAligns(t.cfg.abi) |->
+  [a \in RelevantAligns(t.cfg.abi, t.cfg.align) |->
      LET P == ParamsOf(t, a)
      IN  [P |-> P, S |-> FoldLeft(LAMBDA S, e : Eff(P, S, e), InitState(P), evs)]]
 
